@@ -394,22 +394,27 @@ impl State {
     }
 
     // what a build may leave behind: remember it on entry
-    fn build_mark(&mut self) -> (usize, usize, usize, usize, usize) {
+    fn build_mark(&mut self) -> (usize, usize, usize, usize, usize, usize) {
         if self.nested.is_empty() && self.last_error.as_ref().map_or(false, |e| e.runtime) {
             // a program that failed at run time is not resumed by later sources
             self.halt();
         }
-        (self.nested.len(), self.input.len(), self.data_stack.len(), self.sources.len(), self.heap.len())
+        let rl_len = self.reverse_log.as_ref().map_or(0, |log| log.len());
+        (self.nested.len(), self.input.len(), self.data_stack.len(), self.sources.len(), self.heap.len(), rl_len)
     }
 
     // a rejected source has no effect: drop its unread text, pending flows,
     // half-built code and definitions, and return to the enclosing context
-    fn build_abort(&mut self, mark: (usize, usize, usize, usize, usize)) {
-        let (depth, inputs, ds_len, sources, heap) = mark;
+    fn build_abort(&mut self, mark: (usize, usize, usize, usize, usize, usize)) {
+        let (depth, inputs, ds_len, sources, heap, rl_len) = mark;
         if self.nested.len() <= depth {
             // the source was built, it failed while running: halt it
             self.halt();
             return;
+        }
+        // what its meta blocks logged refers to code that goes away now
+        if let Some(log) = self.reverse_log.as_mut() {
+            log.truncate(rl_len);
         }
         let ctx = self.nested.get(depth + 1).cloned().unwrap_or_else(|| self.ctx.clone());
         self.input.truncate(inputs);
